@@ -21,6 +21,8 @@ def check(chk, fx):
     saferules.empty_guard(chk, fx)
     lexrules.iter_rule(chk, fx)
     cexrules.buf(chk, fx)
+    from .. import ownrules
+    ownrules.bufref(chk, fx, 6)
     cexrules.stacksel(chk, fx)
     caprules.cap_k(chk, fx)
     caprules.cap_s(chk, fx)
